@@ -1032,7 +1032,7 @@ PROPS = {
     "C17": {
         "property_modules": ["Zlink.Properties.C17"],
         "lean_modules": ["Zlink.Properties.C17"],
-        "theorems": ["C17.C17_rx_cap_bounded", "C17.C17_rx_accept", "C17.C17_rx_overflow", "C17.C17_rx_threshold", "C17.C17_rx_threshold_any_history", "C17.C17_rx_threshold_prod",
+        "theorems": ["C17.C17_rx_cap_bounded", "C17.C17_rx_accept", "C17.C17_rx_overflow", "C17.C17_rx_threshold", "C17.C17_rx_threshold_any_history", "C17.C17_rx_overflow_interleaved", "C17.C17_rx_threshold_prod",
                      "C17.C17_tx_threshold", "C17.C17_tx_cap_bounded", "C17.consts_ok"],
         "run": run_bounds, "trusted_base": TB_COMMON,
         "assumptions": RX_ASSUME[:2] + TX_ASSUME + [
